@@ -121,7 +121,8 @@ impl Check for C10 {
         p.fam[F_ALT] = 0;
         p.fam[F_TEXT] = 40;
         p.fam[F_C0] = 14;
-        p.allow_ris = false;
+        p.allow_ris = true;
+        p.fam[F_RESET] = 2;
         p.text_widths = 3;
         if r.chance(1, 2) {
             p = p.swarm(r);
@@ -170,7 +171,7 @@ impl Check for C10 {
                     live.apply(e);
                     continue;
                 };
-                if live.hid.alt || live.ris_count > 0 {
+                if live.hid.alt {
                     // the statement is about the primary screen
                     live.apply(e);
                     continue;
@@ -231,8 +232,8 @@ impl Check for C10 {
     }
     fn meta(&self) -> Meta {
         Meta {
-            rule: "arbitrary primary-screen histories (every family except alternate screen and RIS; rows whose marks were set and cleared by editing), unlimited scrollback, resizes delivered at scheduler-chosen instants (also mid-sequence and with wrap pending, boosted) plus a final chain of 1-3 resizes between any sizes >= 1x1; oracle = the stated relation between the logical views (logical line = cells of rows joined by marks, right-trimmed of default cells) before and after each resize, plus the C02 geometry; non-trivial = a resize judged on a non-blank buffer; distinct = digests of (logical line counts, cursor offsets, final screen)",
-            assumptions: vec!["'same character' is judged only when the cursor was on a cell of the trimmed logical line; wrap pending counts as the next cell", "resizes while the alternate screen shows or after a RIS are not judged here (C16 / C19)", "a run in which avt panics is abandoned"],
+            rule: "arbitrary primary-screen histories (every family except the alternate screen; incl. DECSTR and RIS; rows whose marks were set and cleared by editing), unlimited scrollback, resizes delivered at scheduler-chosen instants (also mid-sequence and with wrap pending, boosted) plus a final chain of 1-3 resizes between any sizes >= 1x1; oracle = the stated relation between the logical views (logical line = cells of rows joined by marks, right-trimmed of default cells) before and after each resize, plus the C02 geometry; non-trivial = a resize judged on a non-blank buffer; distinct = digests of (logical line counts, cursor offsets, final screen)",
+            assumptions: vec!["'same character' is judged only when the cursor was on a cell of the trimmed logical line; wrap pending counts as the next cell", "resizes while the alternate screen shows are not judged here (C16)", "a run in which avt panics is abandoned"],
             real: vec!["avt::Vt", "avt::parser::Parser (lock-step)", "avt::util::TextUnwrapper (wrap marks)"],
             simulated: vec!["App", "Pipe", "Window (resize timing)"],
             model: vec!["logical-line relation of the statement"],
